@@ -36,7 +36,11 @@ const (
 )
 
 func addrRoot(v ssa.Value, depth int) (rootKind, ssa.Value) {
-	for depth < 24 {
+	return addrRootSeen(v, depth, map[*ssa.Phi]bool{})
+}
+
+func addrRootSeen(v ssa.Value, depth int, seen map[*ssa.Phi]bool) (rootKind, ssa.Value) {
+	for depth < 64 {
 		depth++
 		switch x := v.(type) {
 		case *ssa.Global:
@@ -74,8 +78,12 @@ func addrRoot(v ssa.Value, depth int) (rootKind, ssa.Value) {
 			// shared if any edge is shared
 			worst := rootLocal
 			var wv ssa.Value = x
+			if seen[x] {
+				return worst, wv
+			}
+			seen[x] = true
 			for _, e := range x.Edges {
-				if k, r := addrRoot(e, depth); k == rootGlobal {
+				if k, r := addrRootSeen(e, depth, seen); k == rootGlobal {
 					return k, r
 				} else if k != rootLocal {
 					worst, wv = k, r
@@ -238,6 +246,14 @@ func runC19(c *core.Ctx) error {
 		}
 	}
 
+	r6 := c.NewRule("R19.6", "S1+S2", "function values that outlive their creator do not store to captured variables", 3)
+	r7 := c.NewRule("R19.7", "S1+S2", "package-level slices and maps are not handed out whole (their backing store stays private to read-only code)", 3)
+	for _, p := range rt {
+		path := core.Module + strings.TrimPrefix(p, ".")
+		checkEscapingClosures(c, r6, prog, path, core.ShortPkg(path))
+		checkGlobalRefEscape(c, r7, prog, path, core.ShortPkg(path))
+	}
+
 	// S2
 	ex, err := c.Expand(fixtureNames(c))
 	if err != nil {
@@ -294,8 +310,211 @@ func runC19(c *core.Ctx) error {
 		for _, fn := range core.PkgFuncs(ex.Prog.SSA, pkg) {
 			checkPoolDiscipline(c, r5, fn)
 		}
+		checkEscapingClosures(c, r6, ex.Prog, fx.PkgPath, "S2:"+fx.Name)
+		checkGlobalRefEscape(c, r7, ex.Prog, fx.PkgPath, "S2:"+fx.Name)
 	}
 	return nil
+}
+
+// closureEscapes: the MakeClosure value is returned, stored, or passed to a
+// go statement / another function (other than being called or deferred in
+// place).
+func closureEscapes(mc *ssa.MakeClosure) bool {
+	return closureEscapesSeen(mc, map[*ssa.MakeClosure]bool{})
+}
+
+func closureEscapesSeen(mc *ssa.MakeClosure, visiting map[*ssa.MakeClosure]bool) bool {
+	if visiting[mc] {
+		return false
+	}
+	visiting[mc] = true
+	seen := map[ssa.Value]bool{}
+	var esc func(v ssa.Value) bool
+	esc = func(v ssa.Value) bool {
+		if seen[v] || v.Referrers() == nil {
+			return false
+		}
+		seen[v] = true
+		for _, ref := range *v.Referrers() {
+			switch x := ref.(type) {
+			case *ssa.Return:
+				return true
+			case *ssa.Store:
+				if x.Val == v {
+					// stored into a local variable that is only called is fine; anything else escapes
+					if al, ok := x.Addr.(*ssa.Alloc); ok {
+						for _, r2 := range *al.Referrers() {
+							if ld, ok := r2.(*ssa.UnOp); ok && ld.Op == token.MUL {
+								if esc(ld) {
+									return true
+								}
+							}
+							if mc2, ok := r2.(*ssa.MakeClosure); ok {
+								// captured by another closure: follows that closure's fate
+								if closureEscapesSeen(mc2, visiting) {
+									return true
+								}
+							}
+						}
+						continue
+					}
+					return true
+				}
+			case *ssa.Go:
+				return true
+			case *ssa.MapUpdate:
+				return true
+			case *ssa.MakeInterface, *ssa.ChangeType, *ssa.Phi:
+				if esc(x.(ssa.Value)) {
+					return true
+				}
+			case ssa.CallInstruction:
+				// called in place (callee position) or deferred: does not outlive; passed as an argument: escapes
+				if x.Common().Value == v {
+					continue
+				}
+				for _, a := range x.Common().Args {
+					if a == v {
+						// arguments of known synchronous helpers do not retain the function
+						n := core.CalleeName(x.Common())
+						if strings.HasPrefix(n, "slices.") || strings.HasPrefix(n, "sort.") || strings.HasPrefix(n, "strings.") || strings.Contains(n, ".Arr") || strings.Contains(n, ".Obj") ||
+							strings.Contains(n, "DecodeParam") || strings.Contains(n, "EncodeParam") || strings.Contains(n, "EncodeArray") || strings.Contains(n, "EncodeField") ||
+							strings.Contains(n, "DecodeArray") || strings.Contains(n, "DecodeFields") || strings.Contains(n, "HookMiddleware") || strings.Contains(n, "runtime/pprof.Do") ||
+							strings.Contains(n, "CreateMultipartBody") || strings.Contains(n, "splitFunc") || strings.Contains(n, "ObjBytes") || strings.Contains(n, "Capture") {
+							continue
+						}
+						return true
+					}
+				}
+			}
+		}
+		return false
+	}
+	return esc(mc)
+}
+
+// checkEscapingClosures implements R19.6.
+func checkEscapingClosures(c *core.Ctx, r *core.Rule, prog *core.Prog, pkgPath, label string) {
+	pkg := prog.ByPath[pkgPath]
+	if pkg == nil {
+		return
+	}
+	n, bad := 0, 0
+	for _, fn := range core.PkgFuncs(prog.SSA, pkg) {
+		if isInitFunc(fn) {
+			continue
+		}
+		for _, b := range fn.Blocks {
+			for _, in := range b.Instrs {
+				mc, ok := in.(*ssa.MakeClosure)
+				if !ok {
+					continue
+				}
+				lit := mc.Fn.(*ssa.Function)
+				if !closureEscapes(mc) {
+					continue
+				}
+				n++
+				// stores through captured variables inside the escaping closure (and closures nested in it)
+				for _, g := range core.AllFuncs(lit) {
+					for _, bb := range g.Blocks {
+						for _, i2 := range bb.Instrs {
+							st, ok := i2.(*ssa.Store)
+							if !ok {
+								continue
+							}
+							k, root := addrRoot(st.Addr, 0)
+							if k != rootFree {
+								continue
+							}
+							fv := root.(*ssa.FreeVar)
+							if fv.Parent() != lit {
+								continue // captured from the escaping closure itself: per-invocation state
+							}
+							// the captured variable is written per invocation of a function value that outlives its creator
+							// and may be invoked concurrently. Allowed: variables of the parent that the parent itself only
+							// reads after the closure ran synchronously — cannot be known here.
+							bad++
+							r.Fail(fmt.Sprintf("%s:%s:captured-write:%s", label, fnKey(fn), fv.Name()), c.Pos(st.Pos()), fmt.Sprintf("the function value created in %s outlives the call and stores to its captured variable %s on every invocation: concurrent invocations race and see each other's value", fn.Name(), fv.Name()))
+						}
+					}
+				}
+			}
+		}
+	}
+	if bad == 0 {
+		r.Pass(fmt.Sprintf("%s: %d escaping function values, none stores to a captured variable", label, n))
+	}
+}
+
+// checkGlobalRefEscape implements R19.7.
+func checkGlobalRefEscape(c *core.Ctx, r *core.Rule, prog *core.Prog, pkgPath, label string) {
+	pkg := prog.ByPath[pkgPath]
+	if pkg == nil {
+		return
+	}
+	n, bad := 0, 0
+	for _, fn := range core.PkgFuncs(prog.SSA, pkg) {
+		if isInitFunc(fn) {
+			continue
+		}
+		for _, b := range fn.Blocks {
+			for _, in := range b.Instrs {
+				ld, ok := in.(*ssa.UnOp)
+				if !ok || ld.Op != token.MUL {
+					continue
+				}
+				g, ok := ld.X.(*ssa.Global)
+				if !ok || g.Pkg != pkg {
+					continue
+				}
+				switch ld.Type().Underlying().(type) {
+				case *types.Slice, *types.Map:
+				default:
+					continue
+				}
+				n++
+				for _, ref := range *ld.Referrers() {
+					escapes := ""
+					switch x := ref.(type) {
+					case *ssa.Store:
+						if x.Val == ssa.Value(ld) {
+							escapes = "is stored into another structure"
+						}
+					case *ssa.Return:
+						escapes = "is returned"
+					case *ssa.MakeInterface:
+						escapes = "is converted to an interface value"
+					case *ssa.MapUpdate:
+						if x.Map != ssa.Value(ld) {
+							escapes = "is stored into a map"
+						}
+					case ssa.CallInstruction:
+						name := core.CalleeName(x.Common())
+						if bi, ok := x.Common().Value.(*ssa.Builtin); ok {
+							if bi.Name() == "len" || bi.Name() == "cap" {
+								continue
+							}
+							if bi.Name() == "append" && len(x.Common().Args) > 0 && x.Common().Args[0] != ssa.Value(ld) {
+								continue // appended FROM (copied), not appended to
+							}
+						}
+						if strings.HasPrefix(name, "slices.Contains") || strings.HasPrefix(name, "slices.Index") || strings.HasPrefix(name, "slices.Clone") || strings.HasPrefix(name, "strings.Join") || strings.HasPrefix(name, "maps.Clone") {
+							continue
+						}
+						escapes = "is passed to " + name
+					}
+					if escapes != "" {
+						bad++
+						r.Fail(fmt.Sprintf("%s:global-escape:%s", label, g.Name()), c.Pos(core.InstrPos(ref)), fmt.Sprintf("the package-level %s %s %s in %s: its backing store is shared by every request and the receiver may modify it (e.g. sort it in place)", ld.Type().Underlying().String(), g.Name(), escapes, fn.Name()))
+					}
+				}
+			}
+		}
+	}
+	if bad == 0 {
+		r.Pass(fmt.Sprintf("%s: %d loads of package-level slices/maps, none hands the whole value out", label, n))
+	}
 }
 
 func isLocalRat(v ssa.Value, depth int) bool {
@@ -417,6 +636,46 @@ func checkPoolDiscipline(c *core.Ctx, r *core.Rule, fn *ssa.Function) {
 				if put.Block().Dominates(in.Block()) && (put.Block() != in.Block() || instrIndex(put) < instrIndex(in)) {
 					bad = true
 					r.Fail(key+":use-after-put", c.Pos(in.Pos()), "a pooled jx object is used after it was returned to the pool: another goroutine may already own it")
+				}
+			}
+		}
+		// with a Put anywhere in the function (deferred ones run at return), memory handed out by the pooled
+		// object (Bytes()) must be consumed synchronously: written, appended from, copied or converted
+		hasPut := len(puts) > 0
+		for _, ref := range *cl.Referrers() {
+			if d, ok := ref.(*ssa.Defer); ok && strings.HasPrefix(core.CalleeName(&d.Call), "github.com/go-faster/jx.Put") {
+				hasPut = true
+			}
+		}
+		if hasPut {
+			// direct uses and uses of a loaded copy (value-receiver methods)
+			var users []ssa.Instruction
+			for _, ref := range *cl.Referrers() {
+				users = append(users, ref)
+				if ld, ok := ref.(*ssa.UnOp); ok && ld.Op == token.MUL {
+					users = append(users, *ld.Referrers()...)
+				}
+			}
+			for _, ref := range users {
+				bc, ok := ref.(*ssa.Call)
+				if !ok || bc.Common().StaticCallee() == nil || bc.Common().StaticCallee().Name() != "Bytes" {
+					continue
+				}
+				for _, use := range *bc.Referrers() {
+					okUse := false
+					switch u := use.(type) {
+					case ssa.CallInstruction:
+						n := core.CalleeName(u.Common())
+						if strings.Contains(n, ".Write") || strings.HasPrefix(n, "builtin append") || strings.HasPrefix(n, "builtin copy") || strings.HasPrefix(n, "builtin len") || strings.HasPrefix(n, "bytes.Equal") || strings.HasPrefix(n, "slices.Clone") || strings.HasPrefix(n, "bytes.Clone") {
+							okUse = true
+						}
+					case *ssa.Convert:
+						okUse = true // string(b) copies
+					}
+					if !okUse {
+						bad = true
+						r.Fail(key+":bytes-escape", c.Pos(core.InstrPos(use)), "memory of a pooled jx object (Bytes()) is handed on while the object is returned to the pool when the function exits: a later reader (e.g. the HTTP transport reading the request body) sees another goroutine's data")
+					}
 				}
 			}
 		}
